@@ -317,6 +317,37 @@ def check_C15(chk, tier, seed):
                 for wire_v in (None, 10415, 77):
                     cases.append(f"X {did} {xb(nested_avp_frame(6000, gv, 5000, wire_v, SAMPLE_DATA[ty]))}")
                     expect.append(("nested", ty if scope == wire_v else None, TY_XML_NAME[ty] + f" inside a group of vendor {gv}", scope, wire_v))
+    # groups the base protocol gives a special meaning (Failed-AVP 279, Proxy-Info 284, Vendor-Specific-Application-Id 260,
+    # Experimental-Result 297, ...): their members are typed or rejected like everybody else's - an AVP without a usable exact
+    # entry (none, another vendor only, unrecognised type name) is refused inside them too, one and two levels down
+    did = f"t{k}"
+    k += 1
+    special = [279, 284, 260, 297, 456, 873]
+    apps = [dict(name=b"GenApp", id=4, cmds=[], avps=[dict(code=g, vendor=None, name=f"Box-{g}".encode(), tyname=b"Grouped", must=None) for g in special]
+                 + [dict(code=5000, vendor=10415, name=b"Only-V", tyname=b"Unsigned32", must=None), dict(code=5001, vendor=None, name=b"Odd", tyname=b"IPFilterRule", must=None),
+                    dict(code=5002, vendor=None, name=b"Fine", tyname=b"Unsigned32", must=None)])]
+    prelude.append(dict_line(did, [load_toks(gen_xml(apps), apps)]))
+    for g in special:
+        for (mc, mv, ok_ty) in ((5000, None, None), (5001, None, None), (5999, None, None), (5000, 77, None), (5002, None, "u32"), (5000, 10415, "u32")):
+            cases.append(f"X {did} {xb(nested_avp_frame(g, None, mc, mv, SAMPLE_DATA['u32']))}")
+            expect.append(("nested", ok_ty, f"member ({mc}, {mv}) inside group {g}", "-", mv))
+            inner = nested_avp_frame(g, None, mc, mv, SAMPLE_DATA["u32"])[20:]
+            two = gen.be(279, 4) + b"\0" + gen.be(8 + len(inner), 3) + inner
+            cases.append(f"X {did} {xb(bytes([1]) + gen.be(20 + len(two), 3) + bytes([0x80]) + gen.be(272, 3) + gen.be(4, 4) + gen.be(1, 4) + gen.be(2, 4) + two)}")
+            expect.append(("nested2", ok_ty, f"member ({mc}, {mv}) inside group {g} inside group 279", "-", mv))
+    # a document whose <application> carries a <vendor id=.../> element (the shipped 3GPP dictionary has one): it names the vendor of
+    # the application, it is not a default for the definitions - a definition is filed under the vendor-id attribute it has, or none
+    for velem in (10415, 193):
+        for must_not in (None, b"V", b"-", b"P,V"):
+            did = f"t{k}"
+            k += 1
+            apps = [dict(name=b"GenApp", id=4, cmds=[], vendor_elem=velem,
+                         avps=[dict(code=5000, vendor=None, name=b"No-Vendor-Attr", tyname=b"Unsigned32", must=None, must_not=must_not),
+                               dict(code=5001, vendor=velem, name=b"With-Vendor-Attr", tyname=b"UTF8String", must=None, must_not=must_not)])]
+            prelude.append(dict_line(did, [load_toks(gen_xml(apps), apps)]))
+            for (c, wv, ty) in ((5000, None, "u32"), (5000, velem, None), (5001, velem, "utf"), (5001, None, None)):
+                cases.append(f"X {did} {xb(one_avp_frame(c, wv, SAMPLE_DATA[ty or 'u32']))}")
+                expect.append(("scope", ty, f"definition {c} in an application with <vendor id={velem}> (must-not {must_not})", "attr", wv))
     # a dictionary that is used and THEN extended in place: after every extension a wire AVP is typed by the entry its pair has
     # now (a new pair is known, a re-declared pair has its new type), whatever was decoded under the dictionary before
     grow_cases, grow_expect = [], []
@@ -449,7 +480,7 @@ def check_C15(chk, tier, seed):
             if im != "OK":
                 chk.violation("a dictionary could not be created / extended: " + short(im, 200), dict(case=c, impl=short(im)))
             continue
-        if ex[0] in ("scope", "nested"):
+        if ex[0] in ("scope", "nested", "nested2"):
             _, ty, tyname, scope, wire_v = ex
             want_ok = ty is not None and ty != "unk"
             if im.startswith("OK ") != want_ok:
@@ -461,6 +492,8 @@ def check_C15(chk, tier, seed):
                 a = parse_result(im)["msg"]["avps"][0]
                 if ex[0] == "nested":
                     a = a["val"][1][0]
+                if ex[0] == "nested2":
+                    a = a["val"][1][0]["val"][1][0]
                 kind = KIND_TY.get(a["val"][1]) if a["val"][0] == "L" else "grp"
                 if kind != ty:
                     ok = False
@@ -573,6 +606,41 @@ def check_C16(chk, tier, seed):
         expect.append(("byname", [later], v, "g"))
         cases.append(hist_line("grow", ("NEW", 272, 4, 0x80, 1, 2), [("ADDNAME", base["name"], v)]))
         expect.append(("byname", [base], v, "g"))
+    # a dictionary and a clone of it, extended differently afterwards: what a name resolves to is decided by the dictionary the
+    # message holds, whichever of the two was asked first (nothing the two share may remember an answer)
+    for rnd in range(4 if tier == "quick" else 24):
+        o, f = f"co{rnd}", f"cf{rnd}"
+        base = dict(code=7300 + rnd, vendor=None, name=f"Both-{rnd}".encode(), ty="u32", m=False)
+        redecl = dict(code=7400 + rnd, vendor=10415, name=f"Both-{rnd}".encode(), ty="u32", m=True)       # the clone re-declares the NAME for another key
+        only_f = dict(code=7500 + rnd, vendor=None, name=f"Clone-Only-{rnd}".encode(), ty="u32", m=True)
+        only_o = dict(code=7600 + rnd, vendor=None, name=f"Orig-Only-{rnd}".encode(), ty="u32", m=False)
+        v = ("L", SAMPLE_LEAF["u32"])
+        hl = lambda did, nm: hist_line(did, ("NEW", 272, 4, 0x80, 1, 2), [("ADDNAME", nm, v)])
+        cases.append(dict_line(o, [add_toks(base)]))
+        expect.append(("ctl", None, 0, "-"))
+        if rnd % 2:
+            cases.append(hl(o, base["name"]))          # the original is asked before the clone exists
+            expect.append(("byname", [base], v, "g"))
+        cases.append(f"DFORK {o} {f}")
+        expect.append(("ctl", None, 0, "-"))
+        for dd, op in ((f, only_f), (o, only_o)):
+            cases.append(f"DADD {dd} {add_toks(op)}")
+            expect.append(("ctl", None, 0, "-"))
+        # the clone drops the name from the shared key by renaming it there, and declares it for another key
+        cases.append(f"DADD {f} {add_toks(dict(base, name=f'Renamed-{rnd}'.encode()))}")
+        expect.append(("ctl", None, 0, "-"))
+        cases.append(f"DADD {f} {add_toks(redecl)}")
+        expect.append(("ctl", None, 0, "-"))
+        order = [(o, base["name"], [base]), (f, base["name"], [redecl]), (f, only_f["name"], [only_f]), (o, only_f["name"], None),
+                 (o, only_o["name"], [only_o]), (f, only_o["name"], None), (f, base["name"], [redecl]), (o, base["name"], [base])]
+        if rnd % 4 >= 2:
+            order = order[::-1]
+        for (dd, nm, ds) in order:
+            cases.append(hl(dd, nm))
+            if ds is None:
+                expect.append(("stale", hist_line("g", ("NEW", 272, 4, 0x80, 1, 2), []), 0, "g"))
+            else:
+                expect.append(("byname", ds, v, "g"))
     # names the library's built-in dictionary knows, asked of dictionaries that do not contain them: what a name resolves to
     # is decided by the message's own dictionary alone
     for did in ("g", "x"):
